@@ -6,7 +6,7 @@ from typing import Dict, List, Optional
 
 from .. import analysis as A
 from .. import coqrun as C
-from .. import core, engprop as E, gen, hx
+from .. import core, engprop as E, gen, hx, hxcorr
 from .. import indicators as X
 
 from hexital import Hexital  # noqa: E402
@@ -185,9 +185,13 @@ def run(ctx: core.Ctx) -> int:
     cases = [c["case"] for c in E.load_corpus("C08")]
     for _ in range(ctx.n(220, 2500)):
         cases.append(gen_case(rng, ctx))
+    corr = hxcorr.HxCorr(ctx, "C08")
     for c in cases:
         ctx.count("eval_falsifier")
         falsify(ctx, c)
+        spec_f = [{k: v for k, v in s.items()} for s in c["specs"]]
+        corr.add(spec_f, c["tfs"], c["hcfg"], c["rows"][:c["init"]],
+                 [("calculate", None)] + [("append", ch) for ch in c["chunks"]], rng)
         dist["form=" + c["form"]] = dist.get("form=" + c["form"], 0) + 1
         for k in ("tf", "fill", "ha", "lifespan"):
             if c["hcfg"].get(k):
@@ -198,6 +202,7 @@ def run(ctx: core.Ctx) -> int:
         if len(ctx.samples) < 3:
             ctx.sample({"specs": c["specs"], "tfs": c["tfs"], "hcfg": c["hcfg"], "form": c["form"], "n": len(c["rows"]),
                         "init": c["init"], "chunk_sizes": [len(x) for x in c["chunks"]][:8]})
+    corr.run()
     ctx.coverage.update({"input_distribution": dist,
                          "nontrivial_rule": "Hexital over >= 4 candles; members compared with standalone twins fed the same schedule"})
     return core.finish(ctx, proof)
